@@ -7,6 +7,7 @@ import (
 	"context"
 	"fmt"
 	"sync"
+	"sync/atomic"
 	"time"
 )
 
@@ -39,13 +40,26 @@ type EventPublisher struct {
 	// publishCh is used to send messages from an active txn to a goroutine which
 	// publishes events, so that publishing can happen asynchronously from
 	// the Commit call in the FSM hot path.
-	publishCh chan []Event
+	publishCh chan publishBatch
+
+	// generation counts the calls of RefreshAllTopics, i.e. the replacements of the
+	// state the events are computed from. Batches queued by Publish before a
+	// replacement describe the replaced state and are dropped rather than published
+	// to subscribers of the new one. Written while holding lock, read atomically.
+	generation uint64
 
 	snapshotHandlers SnapshotHandlers
 
 	// wildcards contains map keys used to access the buffer for a topic's wildcard
 	// subject — it is used to track which topics support wildcard subscriptions.
 	wildcards map[Topic]topicSubject
+}
+
+// publishBatch is the set of events of one transaction together with the
+// generation of the state they were computed from.
+type publishBatch struct {
+	generation uint64
+	events     []Event
 }
 
 // topicSubject is used as a map key when accessing topic buffers and cached
@@ -104,7 +118,7 @@ func NewEventPublisher(snapCacheTTL time.Duration) *EventPublisher {
 		snapCacheTTL: snapCacheTTL,
 		topicBuffers: make(map[topicSubject]*topicBuffer),
 		snapCache:    make(map[topicSubject]*eventSnapshot),
-		publishCh:    make(chan []Event, 64),
+		publishCh:    make(chan publishBatch, 64),
 		subscriptions: &subscriptions{
 			byToken: make(map[string]map[*SubscribeRequest]*Subscription),
 		},
@@ -148,6 +162,9 @@ func (e *EventPublisher) RefreshAllTopics() {
 	topics := make(map[Topic]struct{})
 
 	e.lock.Lock()
+	// Everything queued by Publish so far was computed from the state that is being
+	// replaced.
+	atomic.AddUint64(&e.generation, 1)
 	for topic := range e.snapshotHandlers {
 		topics[topic] = struct{}{}
 		e.forceEvictByTopicLocked(topic)
@@ -193,7 +210,7 @@ func (e *EventPublisher) Publish(events []Event) {
 		}
 	}
 
-	e.publishCh <- events
+	e.publishCh <- publishBatch{generation: atomic.LoadUint64(&e.generation), events: events}
 }
 
 // Run the event publisher until ctx is cancelled. Run should be called from a
@@ -205,7 +222,7 @@ func (e *EventPublisher) Run(ctx context.Context) {
 			e.subscriptions.closeAll()
 			return
 		case update := <-e.publishCh:
-			e.publishEvent(update)
+			e.publishBatch(update)
 		}
 	}
 }
@@ -213,8 +230,18 @@ func (e *EventPublisher) Run(ctx context.Context) {
 // publishEvent appends the events to any applicable topic buffers. It handles
 // any closeSubscriptionPayload events by closing associated subscriptions.
 func (e *EventPublisher) publishEvent(events []Event) {
+	e.publishBatch(publishBatch{generation: atomic.LoadUint64(&e.generation), events: events})
+}
+
+// publishBatch is publishEvent for a batch queued by Publish: it is dropped if
+// RefreshAllTopics replaced the state since it was queued.
+func (e *EventPublisher) publishBatch(batch publishBatch) {
+	if batch.generation != atomic.LoadUint64(&e.generation) {
+		return
+	}
+
 	groupedEvents := make(map[topicSubject][]Event)
-	for _, event := range events {
+	for _, event := range batch.events {
 		if unsubEvent, ok := event.Payload.(closeSubscriptionPayload); ok {
 			e.subscriptions.closeSubscriptionsForTokens(unsubEvent.tokensSecretIDs)
 			continue
@@ -238,6 +265,10 @@ func (e *EventPublisher) publishEvent(events []Event) {
 
 	e.lock.Lock()
 	defer e.lock.Unlock()
+	if batch.generation != e.generation {
+		// the state was replaced while the events were being grouped
+		return
+	}
 	for groupKey, events := range groupedEvents {
 		// Note: bufferForPublishing returns nil if there are no subscribers for the
 		// given topic and subject, in which case events will be dropped on the floor and
